@@ -26,6 +26,7 @@ HTTP_MODEL = ("http", "Extract.v", ["model"], "main.ml")
 
 
 def c06(c):
+    c.gen("http", "http", "GenHttp.v")
     c.coq(["http"], "C06", "HttpC")
     c.trusted += [EXTRACT_TB,
                   "the per-byte model represents the whole-body look-ahead of the body states by accumulation (same events, same retained bytes); "
@@ -39,6 +40,7 @@ def c06(c):
 
 
 def c08(c):
+    c.gen("http", "http", "GenHttp.v")
     c.coq(["http"], "C08", "HttpC")
     c.trusted += [EXTRACT_TB,
                   "absence of panics and hangs in the Go code (index arithmetic, slice bounds) is NOT a theorem: the model is total by construction; "
@@ -54,6 +56,7 @@ def c08(c):
 
 
 def c07(c):
+    c.gen("http", "http", "GenHttp.v")
     c.coq(["http"], "C07", "HttpC")
     c.trusted += [EXTRACT_TB,
                   "net/http (http.ReadRequest / http.ReadResponse) is the reference; that the model's `meaning` coincides with what net/http extracts is tested on every generated message, not proved",
@@ -79,6 +82,7 @@ def c18(c):
 
 
 def c10(c):
+    c.gen("http", "http", "GenHttp.v")
     c.coq(["http", "httpresp", "server"], "C10", "ServerC")
     c.trusted += ["the composition theorem covers pipelined body-less requests (c07 partial); requests with bodies, the close decision, TLS and the kernel are exercised by the harness, not proved",
                   "the ClientConn handler-queue model (coq/server/ClientFifo.v) is tied to the code only through the end-to-end oracle (callbacks exactly once with the matching response)",
@@ -108,7 +112,7 @@ MODELS = [
     HTTP_MODEL,
     ("mempool", "Extract.v", ["mmodel"], "main.ml"),
 ]
-HARNESSES = [("mempool", False), ("httpparse", True), ("httpresp", True), ("httpref", True), ("stop", True), ("httpe2e", True)]
+HARNESSES = [("mempool", False), ("httpparse", True), ("httpresp", True), ("httpref", True), ("stop", True), ("httpe2e", True), ("gendump", True)]
 
 CHECKS = {
     "C06": c06,
